@@ -195,6 +195,8 @@ pub struct TypeSpace {
 
     name_to_id: BTreeMap<String, TypeId>,
     ref_to_id: BTreeMap<RefKey, TypeId>,
+    // References whose definitions were added by a call that succeeded.
+    added_refs: BTreeSet<RefKey>,
 
     uses_chrono: bool,
     uses_uuid: bool,
@@ -218,6 +220,7 @@ impl Default for TypeSpace {
             type_to_id: Default::default(),
             name_to_id: Default::default(),
             ref_to_id: Default::default(),
+            added_refs: Default::default(),
             uses_chrono: Default::default(),
             uses_uuid: Default::default(),
             uses_serde_json: Default::default(),
@@ -621,13 +624,14 @@ impl TypeSpace {
         let definitions = type_defs
             .into_iter()
             .filter(|(ref_name, schema)| {
-                let already_added = self.definitions.get(ref_name) == Some(schema)
-                    && self
-                        .ref_to_id
-                        .get(ref_name)
-                        .is_some_and(|type_id| self.id_to_entry.contains_key(type_id));
+                let already_added = self.added_refs.contains(ref_name)
+                    && self.definitions.get(ref_name) == Some(schema);
                 !already_added
             })
+            .collect::<Vec<_>>();
+        let added_refs = definitions
+            .iter()
+            .map(|(ref_name, _)| ref_name.clone())
             .collect::<Vec<_>>();
 
         // Assign IDs to reference types before actually converting them. We'll
@@ -696,6 +700,11 @@ impl TypeSpace {
             type_entry.finalize(self)?;
             self.id_to_entry.insert(type_id, type_entry);
         }
+
+        // Only definitions of a call that ran to completion count as added; a
+        // call that failed part way leaves references to types that were
+        // never converted.
+        self.added_refs.extend(added_refs);
 
         Ok(())
     }
